@@ -12,7 +12,7 @@ from harness.scalars import FUNCS, VEC_FUNCS
 
 SCALAR_NAMES = ["x", "y", "x1", "x2", "x10", "w9", "w10", "a", "B2", "z"]
 VECTOR_NAMES = ["v", "u", "x", "w", "x2", "x10"]
-MATRIX_NAMES = ["A", "S", "M"]
+MATRIX_NAMES = ["A", "S", "M", "W1", "Q2"]   # W1[0,10]: three numeric groups in an element name
 PARAM_NAMES = ["p", "q"]
 
 NICE = [0.25, 0.5, 1.0, 1.5, 2.0, 3.0, -0.25, -0.5, -1.0, -1.5, -2.0, -3.0]
